@@ -234,6 +234,13 @@ func runFaultJob(c *Ctl, job *Job, idx int, res *RunResult) {
 		prof.Checks["C12"] = true
 		res.WorldIdx = world
 		res.Sample = map[string]interface{}{"world": w.Summary(), "cancel_at_step": variant, "via": prof.CancelVia, "cancels": w.NFaults}
+	case "c08":
+		w = GenOverrideWorld(c.Ch, thorough)
+		prof.UseRunEnter = true
+		prof.UseStageStart = true
+		prof.WAdvance = 1
+		prof.Checks["C08"] = true
+		res.Sample = map[string]interface{}{"world": w.Summary(), "config": w.ConfigMap()}
 	case "c14":
 		w = GenContextWorld(c.Ch, thorough)
 		prof.UseRunEnter = true
@@ -258,6 +265,9 @@ func runFaultJob(c *Ctl, job *Job, idx int, res *RunResult) {
 	}
 	if prof.Checks["C14"] {
 		e.checkC14(x)
+	}
+	if prof.Checks["C08"] {
+		e.checkC08()
 	}
 	res.NonTrivial = true
 	e.c.Counters[fmt.Sprintf("max_parallel_execs_%d", e.maxExecPar)]++
